@@ -506,6 +506,16 @@ func (c *c16) doPage(cs *c16Case) {
 	cur := -1
 	if c.rng.Intn(100) < 65 {
 		cur = c.rng.Intn(c16Hashes)
+		// mostly a payment that (by the generator's shadow) exists
+		var ex []int
+		for h := range cs.sh {
+			if cs.sh[h].exists {
+				ex = append(ex, h)
+			}
+		}
+		if len(ex) > 0 && c.rng.Intn(100) < 85 {
+			cur = ex[c.rng.Intn(len(ex))]
+		}
 	}
 	c.pf("%s", c.opPage(c.rng.Intn(4) != 0, c.rng.Intn(2) == 0, cur, uint64(1+c.rng.Intn(3))))
 }
